@@ -1199,6 +1199,134 @@ def text_combined_contract(cls, opt_title):
 
 
 
+# ----------------------------------------------- PptxSlide.get_text (round 7: verified) --
+def pptx_text_spec(me):
+    """Pieces of the documented slide text ("slide text with formulas included and optional image captions"): the base text when
+    it is non-empty, one piece per formula in stored order ($$..$$ for display formulas, $..$ inline), and -- only when captions are
+    asked for -- one piece `[Image: <description>]` per image WITH a description, in stored order."""
+    base = _f("PptxSlide", "base_text")(me)
+    off = z3.If(z3.Length(base) > 0, 1, 0)
+    nf, ni = fld_len("PptxSlide", "formulas")(me), fld_len("PptxSlide", "images")(me)
+    f_at = lambda k: fld_at("PptxSlide", "formulas", ext_sort("PptxFormula"))(me, k)
+    i_at = lambda k: fld_at("PptxSlide", "images", ext_sort("PptxImage"))(me, k)
+    latex, disp = _f("PptxFormula", "latex"), fld("PptxFormula", "is_display", B)
+    desc = _f("PptxImage", "description")
+    d1, d2 = z3.StringVal("$"), z3.StringVal("$$")
+    fm = lambda k: z3.If(disp(f_at(k)), z3.Concat(d2, latex(f_at(k)), d2), z3.Concat(d1, latex(f_at(k)), d1))
+    cap = lambda j: z3.Concat(z3.StringVal("[Image: "), desc(i_at(j)), z3.StringVal("]"))
+    keep = z3.Lambda([K], z3.Length(desc(i_at(K))) > 0)
+    cnt = lambda j: X.COUNT_TRUE(keep, j)
+    cdef = lambda j: X.count_true_def(keep, j)
+    return dict(base=base, off=off, nf=nf, ni=ni, fm=fm, cap=cap, kept=lambda j: z3.Length(desc(i_at(j))) > 0, cnt=cnt, cdef=cdef)
+
+
+def _joined_local(fnode):
+    """name of the local list whose join is returned (`return sep.join(<name>)`), however it is called"""
+    for n in ast.walk(fnode):
+        if isinstance(n, ast.Return) and isinstance(n.value, ast.Call) and isinstance(n.value.func, ast.Attribute) and n.value.func.attr == "join" \
+                and len(n.value.args) == 1 and isinstance(n.value.args[0], ast.Name):
+            return n.value.args[0].id
+    return None
+
+
+def pptx_get_text_contract():
+    from contracts.c16_exec import ConjA
+    from pyvc.ops import Unsupported
+
+    def clauses(sp, P_len, P_at, upto_f, upto_i, captions):
+        """the part list read as (length, element function), formulas handled so far, images handled so far (None: image pieces are
+        not part of the list)"""
+        k, j = z3.Int("k!gt"), z3.Int("j!gt")
+        n_img = sp["cnt"](upto_i) if upto_i is not None else z3.IntVal(0)
+        out = [("count", z3.And(P_len == sp["off"] + upto_f + z3.If(captions, n_img, 0), z3.Implies(captions, n_img >= 0))),
+               ("base-text-first", z3.Implies(sp["off"] == 1, P_at(z3.IntVal(0)) == sp["base"])),
+               ("formula-k-at-its-position", z3.ForAll([k], z3.Implies(z3.And(k >= 0, k < upto_f), P_at(sp["off"] + k) == sp["fm"](k))))]
+        if upto_i is not None:
+            out.append(("caption-of-every-described-image-in-order",
+                        z3.Implies(captions, z3.ForAll([j], z3.Implies(z3.And(j >= 0, j < upto_i, sp["kept"](j)),
+                                                                         z3.And(sp["cnt"](j) >= 0, sp["cnt"](j) < n_img,
+                                                                                P_at(sp["off"] + sp["nf"] + sp["cnt"](j)) == sp["cap"](j))),
+                                                        patterns=[sp["cnt"](j)]))))
+        return out
+
+    def parts_view(lc_or_c, st, fnode):
+        name = _joined_local(fnode)
+        v = st.lookup(name) if name else None
+        if not isinstance(v, VRef) or st.obj(v.ref).kind not in ("alist", "list"):
+            raise Unsupported("the list of text pieces that is joined was not found in this state")
+        sq = lc_or_c.ex._as_seq(st, v)
+        if sq is not None and z3.is_int_value(z3.simplify(sq.length)) and z3.simplify(sq.length).as_long() == 0:
+            return z3.IntVal(0), (lambda k: z3.StringVal(""))          # the empty list: no element is ever read
+        if sq is None or not isinstance(sq.elem(K), VStr):
+            raise Unsupported("the list of text pieces does not hold strings only here")
+        return sq.length, (lambda k: sq.elem(k).t)
+
+    def inv_formulas(lc):
+        me = lc.entry.frames[0].env["self"].t
+        sp = pptx_text_spec(me)
+        n, at = parts_view(lc, lc.st, lc.ex.cur_fn_stack[-1])
+        return Conj(clauses(sp, n, at, lc.i, None, z3.BoolVal(False)))
+
+    def inv_images(lc):
+        me = lc.entry.frames[0].env["self"].t
+        sp = pptx_text_spec(me)
+        n, at = parts_view(lc, lc.st, lc.ex.cur_fn_stack[-1])
+        return ConjA(clauses(sp, n, at, sp["nf"], lc.i, z3.BoolVal(True)), defs=[sp["cdef"](z3.IntVal(0)), sp["cdef"](lc.i), sp["cdef"](lc.i + 1)])
+
+    def hyps(c):
+        sp = pptx_text_spec(c.args["self"].t)
+        return z3.And(sp["cdef"](z3.IntVal(0)), sp["nf"] >= 0, sp["ni"] >= 0)
+
+    def ens(which):
+        def f(c):
+            if c.ex.contract is not c_:
+                # call sites (PptxContent.iterate_units): the result is the abstract name `PptxSlide.get_text()(slide, flag)` of SPEC --
+                # the call-site view "a function of the slide and the flag alone", which the verified clauses imply
+                return z3.BoolVal(True)
+            sp = pptx_text_spec(c.args["self"].t)
+            r = c.result.t if isinstance(c.result, VStr) else None
+            if r is None or not (z3.is_app(r) and r.decl().name() == "str_join" and r.num_args() == 3):
+                raise Unsupported("get_text does not return a join over a sequence the executor follows")
+            captions = c.ex.truth(c.st, c.args["include_image_captions"]).t
+            cl = dict(clauses(sp, r.arg(2), lambda k: z3.Select(r.arg(1), k), sp["nf"], sp["ni"], captions))
+            if which == "separator":
+                return r.arg(0) == NL
+            return cl[which]
+        return f
+
+    sp_f, sp_i = LoopSpec(inv=inv_formulas, label="formulas"), LoopSpec(inv=inv_images, label="images")
+
+    def finder(ex, fnode, node):
+        if not isinstance(node, ast.For):
+            return None
+        if iterates(fnode, node.iter, ("self", "formulas")):
+            return sp_f
+        if iterates(fnode, node.iter, ("self", "images")):
+            return sp_i
+        return None
+
+    def result_maker(ex, st, ctx):
+        return VStr(opaque("PptxSlide", "get_text", B)(ctx.args["self"].t, ex.truth(st, ctx.args["include_image_captions"]).t))
+
+    p_flag = p_bool()
+    p_flag.default = lambda ex, st: VBool(z3.BoolVal(False))
+    c_ = FnContract(
+        target=f"{DT}::PptxSlide.get_text",
+        params=[("self", p_ext("PptxSlide")), ("include_image_captions", p_flag)],
+        hyps=hyps,
+        result_maker=result_maker,
+        ensures=[("pieces-joined-by-newline", ens("separator")), ("one-piece-per-formula-and-per-described-image", ens("count")),
+                 ("base-text-first", ens("base-text-first")), ("formula-k-at-its-position", ens("formula-k-at-its-position")),
+                 ("caption-of-every-described-image-in-order", ens("caption-of-every-described-image-in-order"))],
+        raises=[],
+        loops={},
+        note="get_text == '\\n'.join([base_text if non-empty] + [$latex$ | $$latex$$ per formula] + ([Image: d] per image with a description, "
+             "if asked for)); lists of symbolic length, filter counted by COUNT_TRUE",
+    )
+    c_.loop_finder = finder
+    return c_
+
+
 # ------------------------------------------------------------ opaque members --
 def install_opaque():
     OP = X.UnitsExecutor.OPAQUE
@@ -1246,6 +1374,24 @@ class C03Executor(ET.ETreeMixin, X.UnitsExecutor):
                 ek = X.ekind_of_value(items[0]) if len(kinds) == 1 else "unk"
                 return VSeq(z3.IntVal(len(items)), lambda k, items=items: X._sel(items, k), ek)
         return None
+
+    def havoc_loop_state(self, st, body, spec, extra_names=()):
+        # round 7: an EMPTY concrete list to which the loop body only appends string-typed expressions (f-strings, string constants)
+        # is havocked to a sequence of strings, not to a sequence of unknowns (the element kind of `[]` is not known otherwise)
+        by_ref = {}
+        for b in body:
+            for sub in ast.walk(b):
+                if isinstance(sub, ast.Call) and isinstance(sub.func, ast.Attribute) and sub.func.attr in X.MUTATORS:
+                    r = self._resolve(st, sub.func.value)
+                    if isinstance(r, VRef):
+                        ok = sub.func.attr == "append" and len(sub.args) == 1 and (
+                            isinstance(sub.args[0], ast.JoinedStr) or (isinstance(sub.args[0], ast.Constant) and isinstance(sub.args[0].value, str)))
+                        by_ref.setdefault(r.ref, []).append(ok)
+        for ref, oks in by_ref.items():
+            o = st.heap.get(ref)
+            if o is not None and o.kind == "list" and o.data == [] and all(oks):
+                st.heap[ref] = HeapObj("alist", VSeq(z3.IntVal(0), lambda k: VStr(z3.StringVal("")), "str"), None, o.fresh)
+        return super().havoc_loop_state(st, body, spec, extra_names)
 
     def b_collection(self, st, name, args, node):
         if name == "list" and len(args) == 1 and isinstance(args[0], VSeq) and args[0].ekind != "unk":
@@ -1632,6 +1778,7 @@ def contracts(reg):
     out.append(cell_non_empty_contract())
     out.append(text_combined_contract("PptSlideContent", True))
     out.append(text_combined_contract("OdpSlide", False))
+    out.append(pptx_get_text_contract())
     # e-mail glue shared with C16 (message boundaries and the body text that becomes the unit are part of both properties): the
     # mailbox splitter and the .eml body assembly are verified here under C16's contracts (with C16's
     # executor, see EXECUTOR); C16's remaining contracts are only registered, so that calls inside these functions use them
